@@ -99,9 +99,10 @@ finally:
     cleanup()
 out = os.path.join('/verif/seeded', a.seed)
 os.makedirs(out, exist_ok=True)
-shutil.copy(patch, os.path.join(out, 'patch.diff'))
-for f in os.listdir(a.dir):
-    if f.endswith('_test.go') or f.endswith('.sh') or f == 'notes.md':
-        shutil.copy(os.path.join(a.dir, f), os.path.join(out, f))
+if os.path.realpath(a.dir) != os.path.realpath(out):
+    shutil.copy(patch, os.path.join(out, 'patch.diff'))
+    for f in os.listdir(a.dir):
+        if f.endswith('_test.go') or f.endswith('.sh') or f == 'notes.md':
+            shutil.copy(os.path.join(a.dir, f), os.path.join(out, f))
 json.dump(meta, open(os.path.join(out, 'meta.json'), 'w'), indent=1)
 print(json.dumps({k: meta.get(k) for k in ('seed', 'existing_tests_pass', 'demonstration_confirmed', 'caught_by')}))
